@@ -104,6 +104,7 @@ pub fn monitor(out: &RunOut) -> MonOut {
                         let by_request = reqs.iter().any(|(inv, rep, reply, _)| {
                             *inv < i && rep.map(|r| r > i).unwrap_or(true) && matches!(reply, Some(CtlReply::Started) | Some(CtlReply::Throttled) | None)
                         });
+                        m.sig(format!("wait-end|timers{}|fired{}|by_request{}|late_order{:?}", armed.len(), armed.iter().filter(|a| a.2).count(), by_request, armed.iter().map(|a| matches!(a.1, TimerArg::For(_))).collect::<Vec<_>>()));
                         m.count("R2.check_starts");
                         if all_fired {
                             m.count("R2.timer_driven");
